@@ -21,6 +21,7 @@ pub trait HG: Group<Scalar = Scalar> + zkchannels_crypto::SerializeElement + Cop
     fn commitment(&self) -> Commitment<Self>;
     fn real_bytes(b: &[u8]) -> Option<Real>;
     fn enc(book: &Book, d: &Scalar) -> Vec<u8>;
+    fn real_bytes_pub(b: &[u8]) -> Option<Real> { Self::real_bytes(b) }
 }
 impl HG for G1Projective {
     const NAME: &'static str = "G1";
